@@ -446,10 +446,9 @@ fn check_cell(m: &MLibT, ci: usize, rcell: &raw::Cell, b: &BuiltT) -> Result<(),
                 other => return Err(format!("cell {} layer {}: non-rectangle {:?}", c.name, l, other)),
             };
             let (x0, y0, x1, y1) = (r.p0.x as i64, r.p0.y as i64, r.p1.x as i64, r.p1.y as i64);
+            // corner order is free: normalise
+            let (x0, x1, y0, y1) = (x0.min(x1), x0.max(x1), y0.min(y1), y0.max(y1));
             let (a0, a1, t0, t1) = if ml.horiz { (x0, x1, y0, y1) } else { (y0, y1, x0, x1) };
-            if a0 > a1 || t0 > t1 {
-                return Err(format!("cell {} layer {}: rectangle with reversed corners {:?}", c.name, l, r));
-            }
             if a0 == a1 {
                 continue; // zero-length pieces are ignored
             }
